@@ -275,8 +275,10 @@ class Prov:
         res = set()
         if 1 <= l <= self.b.arg_count:
             res.add(self._leaf(l, path))
+        matched = 0
         for kind, bi, si, x in self.defs.get(l, ()):
             if kind == "C":
+                matched += 1
                 c = self.b.call_at(bi)
                 res.add(Src("call", c.callee, bi))
                 for a in x["args"]:
@@ -302,7 +304,12 @@ class Prov:
                 if wpath[:n] != path[:n]:
                     continue
                 rest = path[len(wpath):] if len(path) >= len(wpath) else ()
+            if len(wpath) <= len(path):
+                matched += 1
             res |= self._rv(rv, rest, stack, bi, si)
+        if matched > 1 or (matched == 1 and 1 <= l <= self.b.arg_count):
+            # the value read here depends on the path taken (several definitions reach it): marker for "derives ONLY from" queries
+            res.add(Src("phi", l, path))
         # a result computed while a cycle was cut below it is only complete at the top of the recursion
         if top or self._cuts == cuts0:
             self.memo[key] = res
@@ -898,6 +905,12 @@ class Program:
                             if fb is not None:
                                 wl.append(fb)
         return list(seen.values()), ext, indirect
+
+
+def nophi(srcs):
+    """True when no path-dependent merge (a local with several definitions) lies on the provenance of the value: an
+    existential `derives from X` then means `is computed from X on every path`."""
+    return not any(s.kind == "phi" for s in srcs)
 
 
 def direct_place(body, op, depth=12):
